@@ -264,19 +264,36 @@ def _ancestors_closure(edges, subset):
     return out
 
 
+def _wide_tracks(seed):
+    """tracks whose frames are wider than one 64-pixel chunk of the GEFF exporter; every mask
+    straddles the chunk boundary at x = 64"""
+    from funtracks.data_model import SolutionTracks
+    n = len(seed["nodes"])
+    seg = np.zeros((worlds.T, n + 1, 70), dtype="int32")
+    g = nx.DiGraph()
+    for i, (k, (t, _r)) in enumerate(sorted(seed["nodes"].items())):
+        g.add_node(k, time=t)
+        seg[t, i, 62:67] = k
+    g.add_edges_from(seed["edges"])
+    return SolutionTracks(g, segmentation=seg, ndim=3)
+
+
 def c15_case(case):
     from funtracks.import_export import export_to_csv, export_to_geff
     kind, wname, seed_j, subset, fmt = case[:5]
     w = worlds.world(wname)
     seed = worlds.seed_from_json(seed_j)
-    if len(case) > 5 and case[5] in ("desc", "zero"):
+    if len(case) > 5 and case[5] in ("desc", "zero", "big"):
         # desc: ids decreasing with time (a set of small ints iterates descendants before
-        # ancestors); zero: zero-based ids (node 0 is a legal, falsy id)
+        # ancestors); zero: zero-based ids (node 0 is a legal, falsy id); big: ids above 255
         n = len(seed["nodes"])
-        m = {k: (n + 1 - k if case[5] == "desc" else k - 1) for k in seed["nodes"]}
+        m = {k: (n + 1 - k if case[5] == "desc" else (k - 1 if case[5] == "zero" else k + 300)) for k in seed["nodes"]}
         seed = {"nodes": {m[k]: v for k, v in seed["nodes"].items()}, "edges": [(m[u], m[v]) for u, v in seed["edges"]]}
         subset = [m[k] for k in subset]
-    tracks = explore.rebuild(w, seed, [])
+    if len(case) > 5 and case[5] == "wide":
+        tracks = _wide_tracks(seed)
+    else:
+        tracks = explore.rebuild(w, seed, [])
     subset = set(subset)
     seg0 = None if tracks.segmentation is None else tracks.segmentation.copy()
     edges = [(int(u), int(v)) for u, v in tracks.graph.edges]
@@ -361,6 +378,11 @@ def c15_cases(tier):
                         yield ("subset", wname, sj, sub, "csv", "desc")
                     if r >= 1 and wname == "noseg-2d-given":
                         yield ("subset", wname, sj, sub, "csv", "zero")
+                    if r == 1:
+                        yield ("subset", wname, sj, sub, "csv", "big")
+                    if wname == "seg-2d-core" and r == 1 and len(ids) <= 3:
+                        yield ("subset", wname, sj, sub, "geff", "wide")
+                        yield ("subset", wname, sj, sub, "geff", "big")
                     # GEFF export costs ~0.2 s: quick tier enumerates it for all forests <= 3 nodes
                     # (all subsets) and for 4-node forests with segmentation-free tracks for
                     # selections of one node; thorough for everything
@@ -424,6 +446,8 @@ def c12_table(seed, scheme, parent_enc, ndim, naming, extras, pos_order, malform
     df = pd.DataFrame(rows, columns=cols)
     if parent_enc == "nan" and scheme in ("seq", "gaps", "zero", "desc"):
         df["parent_id"] = df["parent_id"].astype("float")  # NaN for roots, like pd.read_csv does
+    if parent_enc == "minus1-floattime":
+        df["time"] = df["time"].astype("float")  # a time column that was parsed as float (1.0, 2.0)
     if parent_enc == "minus1-reindexed":
         # a table that was sorted / filtered before: rows reversed, index labels not 0..n-1
         df = df.iloc[::-1]
@@ -560,10 +584,12 @@ def c12_cases(tier):
     for seed in forests:
         sj = worlds.seed_to_json(seed)
         for scheme in ID_SCHEMES:
-            for penc in ("minus1", "nan", "minus1-reindexed"):
+            for penc in ("minus1", "nan", "minus1-reindexed", "minus1-floattime"):
                 for ndim in (3, 4):
                     for naming in ("std", "renamed", "id-renamed", "collide"):
-                        if penc == "minus1-reindexed" and (ndim == 4 or naming in ("id-renamed", "collide")):
+                        if penc in ("minus1-reindexed", "minus1-floattime") and (ndim == 4 or naming in ("id-renamed", "collide")):
+                            continue
+                        if penc == "minus1-floattime" and naming != "std":
                             continue
                         if naming == "collide" and (penc != "minus1" or ndim == 4):
                             continue
